@@ -26,6 +26,13 @@ CLAIMED['C15'] = dict(
     note='Trusted: rustc MIR, the driver, the supported value sets transcribed from the file-format spec (DESIGN.md Appendix A). Pixel-ratio rule decided by abstract evaluation of the guard over value classes {0,1,2,255}^2. Does not decide which error variant is returned.',
     technique='static analysis: MIR switch-table extraction, dominance / must-pass-through, Result-propagation (error discipline) dataflow')
 
+CLAIMED['C10'] = dict(
+    category='other',
+    text='The attachment rule is a finite state machine written as match arms; an effect analysis over rustc MIR (writes through &mut ParseInfo with local callees inlined) reads the whole transition table off the code - per chunk kind the context effect and payload origin, per context the entity written and nothing else - and compares it with the table the property states, together with: no other writer of the state, initial state None, text/colour read only under their flag bits, accessors return the written field, validation moves entities without dropping user data. Every transition is decided for every arm, hence for every chunk sequence.',
+    design_ref='DESIGN.md section 4, C10',
+    note='Trusted: rustc MIR, the driver, documented behaviour of Vec::len/push/get_mut. The oracle table is transcribed from the property statement (DESIGN.md C10).',
+    technique='static analysis: MIR effect (write-set) analysis per match arm + provenance + dominance')
+
 ALL = ['C%02d' % i for i in range(1, 20)]
 
 
